@@ -96,3 +96,28 @@ M("c07-ellipse-b", "C07", "flexstack/geonet/router.py",
 M("c07-fwd-size", "C07", "flexstack/geonet/router.py",
   "            if Router._compute_area_size_m2(cast(Union[GeoBroadcastHST, GeoAnycastHST], common_header.hst), area) > self.mib.itsGnMaxGeoAreaSize * 1_000_000:\n                return indication",
   "            if False:\n                return indication", "GBC forwarder ignores area size limit")
+
+# ---------------------------------------------------------------- C01
+M("c01-ls-flush-order", "C01", "flexstack/geonet/router.py",
+  "                for req in buffered:\n                    self.gn_data_request_guc(req)", "                for req in reversed(buffered):\n                    self.gn_data_request_guc(req)", "LS buffer flushed in reverse order")
+M("c01-ls-overwrite", "C01", "flexstack/geonet/router.py",
+  "                    self._ls_packet_buffers.setdefault(\n                        sought_gn_addr, []).append(buffered_request)", "                    self._ls_packet_buffers[sought_gn_addr] = [buffered_request]", "a request queued behind a pending LS replaces the queue")
+M("c01-guc-all", "C01", "flexstack/geonet/router.py",
+  "            is_destination = (\n                guc_extended_header.de_pv.gn_addr == self.mib.itsGnLocalGnAddr\n            )", "            is_destination = True", "GUC delivered by every receiver")
+M("c01-btpb-info", "C01", "flexstack/btp/btp_header.py",
+  "        destination_port_info = int.from_bytes(data[2:4], byteorder='big')\n        return cls(destination_port=destination_port, destination_port_info=destination_port_info)",
+  "        destination_port_info = int.from_bytes(data[2:3], byteorder='big')\n        return cls(destination_port=destination_port, destination_port_info=destination_port_info)", "BTP-B port info decoded from one octet")
+M("c01-btpa-demux", "C01", "flexstack/btp/router.py",
+  "            callback = self.indication_callbacks.get(\n                indication.destination_port)\n            if callback:\n                callback(indication)\n        else:\n            raise RuntimeError(\"Indication callbacks not frozen\")\n\n    def btp_data_indication",
+  "            callback = self.indication_callbacks.get(\n                indication.source_port)\n            if callback:\n                callback(indication)\n        else:\n            raise RuntimeError(\"Indication callbacks not frozen\")\n\n    def btp_data_indication", "BTP-A demultiplexed on the source port")
+M("c01-dpd-gbc", "C01", "flexstack/geonet/location_table.py",
+  "        # Step 3 (DPD) – SN-based duplicate check per annex A.2\n        self.check_duplicate_sn(gbc_extended_header.sn)\n        # step 4", "        # step 4", "no duplicate detection for GBC")
+M("c01-shb-mdd", "C01", "flexstack/geonet/router.py",
+  "            # Ignore Media Dependant Data\n            packet = packet[4:]\n            # Step 3: execute DAD", "            # Step 3: execute DAD", "SHB media-dependent data not skipped on reception")
+M("c01-so-pv", "C01", "flexstack/geonet/router.py",
+  "                    source_position_vector=guc_extended_header.so_pv,", "                    source_position_vector=self.ego_position_vector,", "GUC indication carries the receiver's PV as source PV")
+M("c01-gac-outside", "C01", "flexstack/geonet/router.py",
+  "        area_f = self.gn_geometric_function_f(\n            common_header.hst,  # type: ignore\n            area,\n            self.ego_position_vector.latitude,\n            self.ego_position_vector.longitude,\n        )\n        try:\n            # Step 3: DPD",
+  "        area_f = self.gn_geometric_function_f(\n            common_header.hst,  # type: ignore\n            area,\n            gbc_extended_header.so_pv.latitude,\n            gbc_extended_header.so_pv.longitude,\n        )\n        try:\n            # Step 3: DPD", "GAC area test uses the source position instead of ego")
+M("c01-ls-pending-reset", "C01", "flexstack/geonet/router.py",
+  "        if de_entry is None or de_entry.ls_pending is True:", "        if de_entry is None:", "revert of the LS-pending fix")
